@@ -209,8 +209,30 @@ func init() {
 	}
 }
 
+// fail fast: after three child publishes have hung, the remaining ones are not started (each would
+// wait for its time limit; the hang is already reported with its input)
+var (
+	c17HangMu sync.Mutex
+	c17Hangs  int
+)
+
+func c17TooManyHangs() bool {
+	c17HangMu.Lock()
+	defer c17HangMu.Unlock()
+	return c17Hangs >= 3
+}
+
+func c17NoteHang() {
+	c17HangMu.Lock()
+	c17Hangs++
+	c17HangMu.Unlock()
+}
+
 // c17RunWorker runs a worker of this binary in a child process with the job on stdin.
 func c17RunWorker(name string, job interface{}, result interface{}) string {
+	if c17TooManyHangs() {
+		return "skipped: three earlier child publishes timed out"
+	}
 	in, _ := json.Marshal(job)
 	cmd := exec.Command(os.Getenv("GVH_BIN"), "worker", name)
 	cmd.Stdin = bytes.NewReader(in)
@@ -232,6 +254,7 @@ func c17RunWorker(name string, job interface{}, result interface{}) string {
 		}
 	case <-time.After(120 * time.Second):
 		cmd.Process.Kill()
+		c17NoteHang()
 		return "timeout"
 	}
 	if err := json.Unmarshal(out.Bytes(), result); err != nil {
@@ -243,6 +266,9 @@ func c17RunWorker(name string, job interface{}, result interface{}) string {
 // c17Publish runs one job in a child process (a goroutine panic in publish kills the process, and
 // html.surnames is a process-global cache: one process per site).
 func c17Publish(job c17Job) (*c17Site, string) {
+	if c17TooManyHangs() {
+		return nil, "skipped: three earlier child publishes timed out"
+	}
 	in, _ := json.Marshal(job)
 	cmd := exec.Command(os.Getenv("GVH_BIN"), "worker", "c17pub")
 	cmd.Stdin = bytes.NewReader(in)
@@ -264,6 +290,7 @@ func c17Publish(job c17Job) (*c17Site, string) {
 		}
 	case <-time.After(60 * time.Second):
 		cmd.Process.Kill()
+		c17NoteHang()
 		return nil, "timeout"
 	}
 	var site c17Site
@@ -1287,6 +1314,9 @@ func init() {
 					}
 				}
 			}
+		}
+		if c17TooManyHangs() {
+			c.Notes = append(c.Notes, "fail fast: child publishes were skipped after three of them ended in a timeout (see the failing inputs)")
 		}
 		c.Notes = append(c.Notes, fmt.Sprintf("%d documents, %d sites published in child processes", ndocs, 4*ndocs))
 		c.Untied = append(c.Untied, "which component each page uses where (composition of pages) is covered by the marker search and the hide-mode comparison only")
